@@ -74,6 +74,12 @@ class _Base(Component):
                 async with anyio.create_task_group() as tg:
                     tg.start_soon(functools.partial(start_component, _Plugin, {"delay": 1}, timeout=None))
                     tg.start_soon(functools.partial(start_component, _Plugin, {"delay": 2}, timeout=None))
+            if self.idx % 4 == 3:
+                # does some of its set-up in a scratch context of its own, entered and left before it publishes
+                from asphalt.core import Context
+
+                async with Context() as scratch:
+                    scratch.add_resource(object(), "scratch", types=[self.marker])
             self._publish(names)
 
         return run()
